@@ -184,9 +184,6 @@ fn same_per_position(got: &[(u8, u8, u64)], want: &[(u8, u8, u64)]) -> bool {
 
 pub fn check_window(eff: &[Out], from: Pos, to: Pos, u: &URef) -> Option<(String, String)> {
     let want = u.window(from, to);
-    let mut i = 0usize;
-    // fast path is exact equality with the unscoped run; if only the order inside
-    // positions differs, that is not a violation of the statement
     let ey: Vec<(u8, u8, u64)> = eff
         .iter()
         .take_while(|o| matches!(o, Out::Yield { .. }))
@@ -195,61 +192,55 @@ pub fn check_window(eff: &[Out], from: Pos, to: Pos, u: &URef) -> Option<(String
             _ => unreachable!(),
         })
         .collect();
-    if ey.as_slice() != want && same_per_position(&ey, want) {
-        i = ey.len();
-    }
-    // yields
-    while i < eff.len() {
-        match &eff[i] {
-            Out::Yield { t, r, h } => {
-                let p = (*t, *r);
-                if i >= want.len() {
-                    let kind = if !is_board_pos(p) || p >= to || p < from {
-                        "outside_scope"
-                    } else {
-                        "window_refinement"
-                    };
-                    return Some((
-                        kind.into(),
-                        format!(
-                            "scope {}..{}: yield #{i} at {} after the {} showdowns the unscoped run has in that window",
-                            pos_str(from), pos_str(to), pos_str(p), want.len()
-                        ),
-                    ));
-                }
-                let w = want[i];
-                if (w.0, w.1, w.2) != (*t, *r, *h) {
-                    let kind = if !is_board_pos(p) || p >= to || p < from {
-                        "outside_scope"
-                    } else if i > 0 && matches!(&eff[i-1], Out::Yield{t:pt, r:pr, ..} if (*pt,*pr) > p) {
-                        "position_order"
-                    } else {
-                        "window_refinement"
-                    };
-                    return Some((
-                        kind.into(),
-                        format!(
-                            "scope {}..{}: yield #{i} is at {} digest {:x}, the unscoped run restricted to the window has {} digest {:x} there",
-                            pos_str(from), pos_str(to), pos_str(p), h, pos_str((w.0, w.1)), w.2
-                        ),
-                    ));
-                }
-                i += 1;
-            }
-            _ => break,
+    let i = ey.len();
+    // fast path: exactly the unscoped run's sequence. Otherwise compare position by
+    // position (the statement fixes the order of positions, not the order inside
+    // one), and describe the first difference in that canonical order so that the
+    // classification does not depend on harmless reorderings inside a position.
+    if ey.as_slice() != want {
+        if let Some(k) = (1..ey.len()).find(|k| (ey[*k].0, ey[*k].1) < (ey[*k - 1].0, ey[*k - 1].1)) {
+            return Some((
+                "position_order".into(),
+                format!(
+                    "scope {}..{}: yield #{k} is at {} after a yield at {}",
+                    pos_str(from), pos_str(to), pos_str((ey[k].0, ey[k].1)), pos_str((ey[k - 1].0, ey[k - 1].1))
+                ),
+            ));
         }
-    }
-    if i < want.len() {
-        let w = want[i];
-        let got = eff.get(i).map(|o| o.short()).unwrap_or("nothing (never finished)".into());
-        let kind = if matches!(eff.get(i), Some(Out::Panic(_))) { "panic" } else { "window_refinement" };
-        return Some((
-            kind.into(),
-            format!(
-                "scope {}..{}: stopped after {i} of {} showdowns (got {got}); next expected at {}",
-                pos_str(from), pos_str(to), want.len(), pos_str((w.0, w.1))
-            ),
-        ));
+        let mut a = ey.clone();
+        let mut b = want.to_vec();
+        a.sort();
+        b.sort();
+        if a != b {
+            let mut k = 0;
+            while k < a.len() && k < b.len() && a[k] == b[k] {
+                k += 1;
+            }
+            let outside = |p: Pos| !is_board_pos(p) || p >= to || p < from;
+            // is the first difference an extra showdown of ours, or one of U's we lack?
+            let extra = k < a.len() && (k >= b.len() || a[k] < b[k]);
+            if extra {
+                let p = (a[k].0, a[k].1);
+                let kind = if outside(p) { "outside_scope" } else { "window_refinement" };
+                return Some((
+                    kind.into(),
+                    format!(
+                        "scope {}..{}: a showdown at {} (digest {:x}) that the unscoped run restricted to the window does not have; {} yielded, {} in the window",
+                        pos_str(from), pos_str(to), pos_str(p), a[k].2, a.len(), b.len()
+                    ),
+                ));
+            }
+            let p = (b[k].0, b[k].1);
+            let got = eff.get(i).map(|o| o.short()).unwrap_or("nothing (never finished)".into());
+            let kind = if matches!(eff.get(i), Some(Out::Panic(_))) { "panic" } else { "window_refinement" };
+            return Some((
+                kind.into(),
+                format!(
+                    "scope {}..{}: the showdown at {} (digest {:x}) of the unscoped run is missing; {} yielded, {} in the window, then {got}",
+                    pos_str(from), pos_str(to), pos_str(p), b[k].2, a.len(), b.len()
+                ),
+            ));
+        }
     }
     // exhaustion and stickiness
     match eff.get(i) {
